@@ -1,3 +1,221 @@
 import Sheens.ES
+import Sheens.Proofs.WalkSplit
 
-/-! Property C05 — theorems (in progress). -/
+/-!
+# Property C05 — walk accounting
+
+Over the model `walk`/`walkLoop`/`walkStride` of `Spec.Walk`, for all specs (arbitrary action and
+guard functions, which are deterministic because they are functions), start states, message
+sequences, limits and breakpoint predicates.
+-/
+
+namespace Sheens.C05
+
+def NonNull (msgs : List V) : Prop := ∀ m ∈ msgs, m ≠ V.null
+
+theorem walk_eq_W (s : Spec) (st : State) (msgs : List V) (limit : Option Int) (bp : State → Bool) :
+    walk s st msgs limit bp =
+      W s bp (match limit with | none => defaultLimit | some l => l).toNat st msgs := rfl
+
+theorem W_bounded (s : Spec) (bp : State → Bool) :
+    ∀ i st p, (W s bp i st p).strides.length ≤ i := by
+  apply W_ind s bp (P := fun i _ _ w => w.strides.length ≤ i)
+  · intro st p; exact Nat.le_refl _
+  · intro i st p _; exact Nat.zero_le _
+  · intro i st p _ _ _; simp
+  · intro i st p w _ _ _ _ ih; simp only [Walked.cons, List.length_cons]; omega
+  · intro i st p t w _ _ ih; simp only [Walked.cons, List.length_cons]; omega
+
+/-- No more steps than the configured limit. -/
+theorem walk_bounded (s : Spec) (st : State) (msgs : List V) (l : Nat) (bp : State → Bool) :
+    (walk s st msgs (some (l : Int)) bp).strides.length ≤ l := by
+  rw [walk_eq_W]
+  exact W_bounded s bp _ st msgs
+
+/-- A non-positive limit takes no step. -/
+theorem walk_limit_nonpos (s : Spec) (st : State) (msgs : List V) (l : Int) (bp : State → Bool)
+    (h : l ≤ 0) :
+    (walk s st msgs (some l) bp).strides = [] ∧ (walk s st msgs (some l) bp).stopped = .limited ∧
+      (walk s st msgs (some l) bp).remaining = msgs := by
+  rw [walk_eq_W]
+  have : l.toNat = 0 := by omega
+  simp [this, W_zero]
+
+theorem W_consumes_prefix (s : Spec) (bp : State → Bool) :
+    ∀ i st p, NonNullL p → ∃ rest, consumedOf (W s bp i st p) ++ rest = p ∧
+      ((W s bp i st p).stopped ≠ .done → (W s bp i st p).remaining = rest) ∧
+      ((W s bp i st p).stopped = .done → (W s bp i st p).remaining = []) := by
+  apply W_ind s bp (P := fun _ _ p w => NonNullL p → ∃ rest, consumedOf w ++ rest = p ∧
+      (w.stopped ≠ .done → w.remaining = rest) ∧ (w.stopped = .done → w.remaining = []))
+  · intro st p _; exact ⟨p, rfl, fun _ => rfl, fun h => by cases h⟩
+  · intro i st p _ _; exact ⟨p, rfl, fun _ => rfl, fun h => by cases h⟩
+  · intro i st p _ _ _ hnn
+    refine ⟨after (walkStride s st (pendingOf p)) p, ?_, fun h => absurd rfl h, fun _ => rfl⟩
+    have := (consumed_after s st p hnn).1
+    have h2 : consumedOf { strides := [walkStride s st (pendingOf p)], remaining := [], stopped := .done }
+        = consL (walkStride s st (pendingOf p)) := by
+      have := consumedOf_cons (walkStride s st (pendingOf p))
+        { strides := [], remaining := [], stopped := .done }
+      simpa [Walked.cons, consumedOf] using this
+    rw [h2]; exact this
+  · intro i st p w _ _ _ _ ih hnn
+    obtain ⟨h1, h2⟩ := consumed_after s st p hnn
+    obtain ⟨rest, h3, h4, h5⟩ := ih h2
+    refine ⟨rest, ?_, h4, h5⟩
+    rw [consumedOf_cons, List.append_assoc, h3, h1]
+  · intro i st p t w _ _ ih hnn
+    obtain ⟨h1, h2⟩ := consumed_after s st p hnn
+    obtain ⟨rest, h3, h4, h5⟩ := ih h2
+    refine ⟨rest, ?_, h4, h5⟩
+    rw [consumedOf_cons, List.append_assoc, h3, h1]
+
+/-- Messages are consumed strictly in order, each at most once: the consumed messages are a prefix
+    of the batch; stopping at the limit or at a breakpoint reports exactly the unconsumed remainder;
+    completion reports none. -/
+theorem walk_consumes_prefix (s : Spec) (st : State) (msgs : List V) (limit : Option Int)
+    (bp : State → Bool) (hnn : NonNull msgs) :
+    let w := walk s st msgs limit bp
+    ∃ rest, consumedOf w ++ rest = msgs ∧
+      (w.stopped ≠ .done → w.remaining = rest) ∧
+      (w.stopped = .done → w.remaining = []) := by
+  intro w
+  exact W_consumes_prefix s bp _ st msgs hnn
+
+/-- Each step starts from the state the previous one produced (or from the unchanged state when the
+    previous one went nowhere); the first starts from the given state. -/
+def Chained : State → List Stride → Prop
+  | _, [] => True
+  | st, sd :: rest =>
+    sd.frm = stateCopy st ∧
+      Chained (match sd.to with | some t => stateCopy t | none => st) rest
+
+theorem walk_chain (s : Spec) (st : State) (msgs : List V) (limit : Option Int) (bp : State → Bool) :
+    Chained st (walk s st msgs limit bp).strides := by
+  rw [walk_eq_W]
+  revert st msgs
+  generalize (match limit with | none => defaultLimit | some l => l).toNat = i
+  revert i
+  apply W_ind s bp (P := fun _ st _ w => Chained st w.strides)
+  · intro st p; trivial
+  · intro i st p _; trivial
+  · intro i st p _ _ _
+    exact ⟨walkStride_frm s st _, trivial⟩
+  · intro i st p w _ ht _ _ ih
+    refine ⟨walkStride_frm s st _, ?_⟩
+    rw [ht]; exact ih
+  · intro i st p t w _ ht ih
+    refine ⟨walkStride_frm s st _, ?_⟩
+    rw [ht]; exact ih
+
+theorem W_done_quiescent (s : Spec) (bp : State → Bool) :
+    ∀ i st p, (W s bp i st p).stopped = .done →
+      (walkStride s ((lastTo (W s bp i st p).strides).getD st) none).to = none := by
+  apply W_ind s bp (P := fun _ st _ w => w.stopped = .done →
+      (walkStride s ((lastTo w.strides).getD st) none).to = none)
+  · intro st p h; cases h
+  · intro i st p _ h; cases h
+  · intro i st p _ ht _ _
+    rw [lastTo_cons_getD, ht]
+    simp only [lastTo, Option.getD_none]
+    cases hc : canConsume s st.node with
+    | true => rw [walkStride_consumer_none s st hc]; rfl
+    | false => rw [walkStride_indep s st hc none (pendingOf p)]; exact ht
+  · intro i st p w _ ht _ _ ih hd
+    simp only [Walked.cons]
+    rw [lastTo_cons_getD, ht]
+    exact ih hd
+  · intro i st p t w _ ht ih hd
+    simp only [Walked.cons]
+    rw [lastTo_cons_getD, ht]
+    simp only [Option.getD_some]
+    rw [walkStride_to_copy s st _ t ht] at ih
+    exact ih hd
+
+set_option linter.unusedVariables false in
+/-- When the walk reports completion the machine is quiescent: one more iteration without a message
+    goes nowhere. -/
+theorem walk_done_quiescent (s : Spec) (st : State) (msgs : List V) (limit : Option Int)
+    (bp : State → Bool) (hnn : NonNull msgs) :
+    let w := walk s st msgs limit bp
+    w.stopped = .done → (walkStride s (finalState st w) none).to = none := by
+  intro w
+  exact W_done_quiescent s bp _ st msgs
+
+theorem W_done_no_discard (s : Spec) (bp : State → Bool) :
+    ∀ i st p, NonNullL p → (W s bp i st p).stopped = .done →
+      (consumedOf (W s bp i st p)).length < p.length →
+      canConsume s ((lastTo (W s bp i st p).strides).getD st).node = false := by
+  apply W_ind s bp (P := fun _ st p w => NonNullL p → w.stopped = .done →
+      (consumedOf w).length < p.length →
+      canConsume s ((lastTo w.strides).getD st).node = false)
+  · intro st p _ h; cases h
+  · intro i st p _ _ h; cases h
+  · intro i st p _ ht hs hnn _ hlen
+    rw [lastTo_cons_getD, ht]
+    simp only [lastTo, Option.getD_none]
+    cases hc : canConsume s st.node with
+    | false => rfl
+    | true =>
+      exfalso
+      cases p with
+      | nil => simp at hlen
+      | cons m p' =>
+        have hm := hnn m List.mem_cons_self
+        have hcons := walkStride_consumer_some s st m hc
+        rw [pendingOf_cons p' hm] at hs hlen
+        have hafter : after (walkStride s st (some m)) (m :: p') = p' := by
+          unfold after; rw [hcons]; rfl
+        rw [hafter, hcons] at hs
+        rcases hs with hs | hs
+        · have : p' = [] := by simpa using hs
+          subst this
+          simp [consumedOf, hcons] at hlen
+        · cases hs
+  · intro i st p w _ ht _ _ ih hnn hd hlen
+    obtain ⟨h1, h2⟩ := consumed_after s st p hnn
+    simp only [Walked.cons]
+    rw [lastTo_cons_getD, ht]
+    refine ih h2 hd ?_
+    rw [consumedOf_cons, List.length_append] at hlen
+    have := congrArg List.length h1
+    rw [List.length_append] at this
+    omega
+  · intro i st p t w _ ht ih hnn hd hlen
+    obtain ⟨h1, h2⟩ := consumed_after s st p hnn
+    simp only [Walked.cons]
+    rw [lastTo_cons_getD, ht]
+    simp only [Option.getD_some]
+    rw [walkStride_to_copy s st _ t ht] at ih
+    refine ih h2 hd ?_
+    rw [consumedOf_cons, List.length_append] at hlen
+    have := congrArg List.length h1
+    rw [List.length_append] at this
+    omega
+
+/-- When the walk reports completion no message was discarded while the machine was at a node
+    able to consume it. -/
+theorem walk_done_no_discard_at_consumer (s : Spec) (st : State) (msgs : List V) (limit : Option Int)
+    (bp : State → Bool) (hnn : NonNull msgs) :
+    let w := walk s st msgs limit bp
+    w.stopped = .done → (consumedOf w).length < msgs.length →
+      canConsume s (finalState st w).node = false := by
+  intro w
+  exact W_done_no_discard s bp _ st msgs hnn
+
+/-- Any split of a batch: if the whole batch and the two halves all run to completion (neither the
+    limit nor a breakpoint intervenes), the final state and the emitted messages, in order, are the
+    same.  By induction this gives every partition into consecutive batches. -/
+theorem walk_split (s : Spec) (st : State) (a b : List V) (lab la lb : Option Int)
+    (hnn : NonNull (a ++ b)) :
+    let nobp : State → Bool := fun _ => false
+    let w := walk s st (a ++ b) lab nobp
+    let w₁ := walk s st a la nobp
+    let w₂ := walk s (finalState st w₁) b lb nobp
+    w.stopped = .done → w₁.stopped = .done → w₂.stopped = .done →
+      stateCopy (finalState st w) = stateCopy (finalState (finalState st w₁) w₂) ∧
+      emittedOf w = emittedOf w₁ ++ emittedOf w₂ := by
+  intro nobp w w₁ w₂ h h1 h2
+  obtain ⟨e1, e2⟩ := W_split s _ _ _ st a b hnn h1 h h2
+  exact ⟨congrArg stateCopy e1, e2⟩
+
+end Sheens.C05
